@@ -47,7 +47,7 @@ def run(tier, seed, t0):
     floors["concurrent_calls_compared"] = (m.bins.get("concurrent_calls_compared", 0), T(tier, 1e6, 4e7))
     return R.finish("C05", tier, seed, m,
                     "query point constructed per Voronoi region (7 regions incl. region boundaries, both sides of the plane) x distance "
-                    "class (on the triangle, 1e-9..1e-4, comparable, far) x triangle aspect 1..1e3 x scale 1e-7..1e2 x offset from origin "
+                    "class (on the triangle, 1e-9..1e-4, comparable, far, far field 1e3..1e5 edge lengths) x triangle aspect 1..1e3 x scale 1e-7..1e2 x offset from origin "
                     "0..1e3 diameters x random rigid embedding; a case is non-trivial when the triangle is non-degenerate "
                     "(area > 1e-7 diam^2); distinct = distinct input coordinate hashes; bins count the region as classified by the oracle",
                     t0, ["own long-double closest-point oracle (plane projection + 3 clamped segment projections) is correct",
